@@ -20,7 +20,7 @@ RULE = ('1-4 stages, each with a source-level safe flag (some delivered through 
         'layout: function slots (!call / !bind with literal, !xref and nested-call arguments; argument overrides; target-name overrides by string '
         'or node; lists and !del mappings; {} / !required / scalar placeholders; value-less !del), scalar-dynamic slots (!eval / f-string / !import), '
         'a lazily included !rec file holding a !call, a dynamic node re-used through a yaml alias, data slots (unique '
-        'markers, mappings, !xref aliases); !unsafe on arbitrary written nodes, on the enclosing container or on the root; key order of every '
+        'markers, mappings, !xref aliases, and a second hop: a reference to the alias or a mapping / list holding one); !unsafe on arbitrary written nodes, on the enclosing container or on the root; key order of every '
         'document permuted; non-trivial = >=1 tainted dynamic node or tainted marker reachable from a dynamic node, and >=2 stages touching '
         'that slot; distinct = hash of the case')
 BUDGET = {'quick': (4, 600), 'thorough': (16, 10000)}
@@ -34,8 +34,8 @@ SSLOTS = ['e1', 'e2']                # scalar-dynamic slots
 DSLOTS = ['d1', 'd2', 'gd']          # data slots (gd lives in grp)
 RSLOTS = ['rc1']                     # lazily included files (!rec), each file holds one !call
 _TMP = {'dir': None}
-XTARGETS = ['d1', 'd2', 'grp.gd', 'al']
-EVALNAMES = ['d1', 'd2', 'al', 'grp.gd']
+XTARGETS = ['d1', 'd2', 'grp.gd', 'al', 'al', 'al2', 'al2']      # al: !xref to a data slot; al2: !xref to al, or a mapping holding one
+EVALNAMES = ['d1', 'd2', 'al', 'grp.gd', 'al', 'al2']
 
 
 @st.composite
@@ -124,11 +124,14 @@ def _stage(draw, idx, ctr, kinds):
             w[s] = ['scalar', ctr['m']]
         else:
             w[s] = ['del']
-    for s in DSLOTS + ['al']:
+    for s in DSLOTS + ['al', 'al2']:
         if not first and draw(st.integers(0, 1)) == 0:
             continue
         if s == 'al':
             w[s] = ['alias', draw(st.sampled_from(['d1', 'd2', 'grp.gd']))]
+        elif s == 'al2':
+            # a second hop: a reference to the reference, or a plain mapping / list holding one (intermediates that are evaluated on their own)
+            w[s] = [kinds['al2'], 'al']       # one kind per case: a mapping merged onto a list (or the reverse) is another story
         elif draw(st.integers(0, 3)) == 0:
             ctr['m'] += 2
             w[s] = ['map', [['p', ctr['m'] - 1], ['q', ctr['m']]]]
@@ -142,7 +145,7 @@ def _stage(draw, idx, ctr, kinds):
         'root_unsafe': False,
         'grp_unsafe': False,
         'writes': w, 'tags': tags,
-        'alias': draw(st.integers(0, 3)) == 0,
+        'alias': draw(st.integers(0, 2)) == 0,
         'order': draw(st.permutations(sorted(k for k in w if k not in ('g1', 'gd')) + ['grp'])),
     }
 
@@ -151,13 +154,29 @@ def _stage(draw, idx, ctr, kinds):
 def _case(draw):
     ctr = {'id': 0, 'm': 1000}
     kinds = {s: draw(st.sampled_from(['call', 'call', 'bind'])) for s in FSLOTS}
+    kinds['al2'] = draw(st.sampled_from(['alias', 'wrapmap', 'wraplist']))
     n = draw(st.sampled_from([1, 2, 2, 3, 3, 4]))
     stages = [draw(_stage(i, ctr, kinds)) for i in range(n)]
     # a small number of taint sources per case, so that clean dynamic nodes still execute next to the tainted ones
     for _ in range(draw(st.sampled_from([0, 1, 1, 1, 2, 2, 3]))):
         s_ = stages[draw(st.integers(0, n - 1))]
-        what = draw(st.sampled_from(['source', 'source', 'root', 'grp', 'node', 'node', 'node', 'arg', 'arg']))
-        if what == 'source':
+        what = draw(st.sampled_from(['source', 'source', 'root', 'grp', 'node', 'node', 'node', 'arg', 'arg', 'chain-end', 'chain-end', 'alias-src']))
+        if what == 'alias-src':
+            # the container of a dynamic node that is re-used through a yaml alias elsewhere in the document
+            cands = [st_ for st_ in stages if st_.get('alias') and st_['writes'].get('g1', ['x'])[0] in ('call', 'bind')]
+            if cands:
+                cands[draw(st.integers(0, len(cands) - 1))]['grp_unsafe'] = True
+        elif what == 'chain-end':
+            # the data slot at the far end of the reference chain al2 -> al -> data: its last write is tagged !unsafe
+            tgt = None
+            for st_ in stages:
+                if 'al' in st_['writes']:
+                    tgt = st_['writes']['al'][1]
+            slot = {'grp.gd': 'gd'}.get(tgt, tgt)
+            writers = [st_ for st_ in stages if slot in st_['writes']]
+            if writers:
+                writers[-1]['tags'][slot] = True
+        elif what == 'source':
             s_['safe'] = False
         elif what == 'root':
             s_['root_unsafe'] = True
@@ -232,6 +251,10 @@ def _write_node(w, tagged):
         n = tdoc.mp([(a, tdoc.sc(m)) for a, m in w[1]], flow=True)
     elif k == 'alias':
         n = tdoc.raw(w[1], '!xref')
+    elif k == 'wrapmap':
+        n = tdoc.mp([('v', tdoc.raw(w[1], '!xref'))], flow=True)
+    elif k == 'wraplist':
+        n = tdoc.sq([tdoc.raw(w[1], '!xref')], flow=True)
     else:
         raise HarnessError(k)
     if tagged:
